@@ -114,7 +114,12 @@ def main():
             print(key, json.dumps({k: v for k, v in r.items() if k not in ('tests_tail',)}, default=str), flush=True)
     out = os.path.join(VERIF, 'seeded', f'RESULTS_{a.tier}.json')
     old = json.load(open(out)) if os.path.exists(out) else {}
-    old.update(results)
+    for k, r in results.items():
+        prev = old.get(k, {})
+        for keep in ('tests_new_failures', 'tests_tail'):   # keep the suite verdict of an earlier --tests run
+            if keep not in r and keep in prev:
+                r[keep] = prev[keep]
+        old[k] = r
     with open(out, 'w') as fh:
         json.dump(old, fh, indent=1)
     missed = [k for k, r in results.items() if not r.get('caught')]
